@@ -9,6 +9,8 @@
 #include "movegen.h"
 #include "position.h"
 #include "zobrist_hash.h"
+#include "verif_hooks.h"
+#include "registry.h"
 
 #include <map>
 #include <set>
@@ -17,11 +19,14 @@
 
 namespace br
 {
-inline void init_engine()
+// seeded: Zobrist keys come from mt19937_64(zseed) (hook H5) so that cases whose construction depends on the keys
+// (cache-slot collisions, table indices) replay identically in a fresh process.  C04 runs on the engine's own keys.
+inline void init_engine(bool seeded = true)
 {
     static bool done = false;
     if (done) return;
     done = true;
+    if (seeded) engine::verif::zobrist_seed = uint64_t(opt_int("zseed", 1)) * 0x9E3779B97F4A7C15ULL + 12345;
     engine::move_bitboards::init();
     engine::zobrist::init();
     engine::bitbase::init();
